@@ -1,5 +1,6 @@
 (* C25 -- proofs, from_coo part 3: the counting sort by row of CSRMatrix::from_coo and the
-   composition with csr_sort_indices and csr_sum_duplicates. *)
+   composition with csr_sort_indices and csr_sum_duplicates.
+   Compile after C25/CsrFromCoo1.v (sum_duplicates_spec) and C25/CsrFromCoo2.v (sort_indices_spec). *)
 From SE Require Export C25.CsrFromCoo2.
 Local Open Scope N_scope.
 Local Open Scope res_scope.
@@ -161,12 +162,16 @@ Qed.
 
 (* ---------- the loops of from_coo ---------- *)
 Section Loops.
-Variables (row : N) (is js : list N) (xs : list E).
+Variables (row col : N) (is js : list N) (xs : list E).
+Hypothesis HM : comm_monoid Ops.
 Hypothesis Hrow : row < 2 ^ 31.
+Hypothesis Hcol : col < 2 ^ 31.
+Hypothesis Hrc : row * col < 2 ^ 31.
 Hypothesis Hnnz : lenN xs < 2 ^ 31.
 Hypothesis Hli : length is = length xs.
 Hypothesis Hlj : length js = length xs.
 Hypothesis His : Forall (fun i => i < row) is.
+Hypothesis Hjs : Forall (fun c => c < col) js.
 
 Let T : list tri := combine is (combine js xs).
 Let nnz : N := lenN xs.
@@ -228,7 +233,7 @@ Proof.
   - split; [rewrite lenN_repeat; lia|]. intros r Hr. rewrite nthN_repeat by lia. reflexivity.
   - intros n p _ Hn (L & HP).
     assert (Hn' : n < lenN T) by (rewrite T_len; assumption).
-    rewrite (getN_ok is n 0) by (unfold lenN, nnz in *; lia). cbn [bind].
+    rewrite (getN_ok is n 0) by (unfold nnz, lenN in *; lia). cbn [bind].
     pose proof (is_lt n Hn) as Hr. set (r := nthN is n 0) in *.
     rewrite (getN_ok p r 0) by lia. cbn [bind].
     pose proof (cntL_pre_lt T n d Hn') as Hlt. rewrite T_nth in Hlt. cbn [fst] in Hlt. fold r in Hlt.
@@ -316,7 +321,7 @@ Proof.
     + intros r Hr. rewrite pre_0, cntL_nil, rowl_nil. apply segN_nil. lia.
   - intros n [[p j_] x_] _ Hn (L & Lj & Lx & HA & HB & HC).
     assert (Hn' : n < lenN T) by (rewrite T_len; assumption).
-    rewrite (getN_ok is n 0) by (unfold lenN, nnz in *; lia). cbn [bind].
+    rewrite (getN_ok is n 0) by (unfold nnz, lenN in *; lia). cbn [bind].
     pose proof (is_lt n Hn) as Hr. set (r := nthN is n 0) in *.
     rewrite (getN_ok p r 0) by lia. cbn [bind].
     pose proof (cntL_pre_lt T n d Hn') as Hlt. rewrite T_nth in Hlt. cbn [fst] in Hlt. fold r in Hlt.
@@ -324,9 +329,9 @@ Proof.
     pose proof (B_le (r + 1)) as Hle.
     rewrite (HA r Hr). set (dest := B r + cntL (pre T n) r).
     assert (Hdest : dest < nnz) by (unfold dest; rewrite Hsucc in Hle; lia).
-    rewrite (getN_ok js n 0) by (unfold lenN, nnz in *; lia). cbn [bind].
+    rewrite (getN_ok js n 0) by (unfold nnz, lenN in *; lia). cbn [bind].
     rewrite setN_ok by lia. cbn [bind].
-    rewrite (getN_ok xs n e0) by (unfold lenN, nnz in *; lia). cbn [bind].
+    rewrite (getN_ok xs n e0) by (unfold nnz, lenN in *; lia). cbn [bind].
     rewrite setN_ok by lia. cbn [bind].
     rewrite uadd_small by (unfold nnz in Hdest; lia).
     rewrite setN_ok by lia. cbn [bind].
@@ -402,6 +407,93 @@ Proof.
   - exists p5, lst. split; [exact Hf|]. split; [exact L5|]. intros r Hr. apply HP. lia.
 Qed.
 
+(* every stored position belongs to a row *)
+Lemma find_row (m : mat) k : wf m -> k < lenN (cj m) ->
+  exists i, i < crow m /\ pN m i <= k /\ k < pN m (i + 1).
+Proof.
+  intros (W1 & W2 & W3 & W4 & W5) Hk.
+  assert (H : forall b, b <= crow m -> k < pN m b -> exists i, i < b /\ pN m i <= k /\ k < pN m (i + 1)).
+  { induction b using N.peano_ind; intros Hb Hlt.
+    - lia.
+    - replace (N.succ b) with (b + 1) in * by lia. destruct (N.lt_ge_cases k (pN m b)) as [Hl|Hg].
+      + destruct IHb as (i & I1 & I2 & I3); [lia|assumption|]. exists i. repeat split; [lia|assumption|assumption].
+      + exists b. repeat split; [lia|assumption|assumption]. }
+  apply (H (crow m)); lia.
+Qed.
+
+Lemma rows_cols_ok (m : mat) : wf m ->
+  (forall i e, i < crow m -> In e (row_of m i) -> fst e < ccol m) -> cols_ok m.
+Proof.
+  intros Hwf H k Hk. destruct (find_row m k Hwf Hk) as (i & I1 & I2 & I3).
+  apply (H i (nthN (cj m) k 0, nthN (cx m) k e0) I1).
+  rewrite row_of_seg. apply in_segN. exists k. repeat split; assumption.
+Qed.
+
+Lemma from_coo_core :
+  exists m, from_coo Ops row col is js xs = Ok m /\ crow m = row /\ ccol m = col /\ Inv (E:=E) m /\
+    forall i c, i < row -> c < col -> entry m i c = esum (coo_values is js xs i c).
+Proof.
+  unfold from_coo. rewrite (u32_small (lenN xs)) by lia. rewrite (uadd_small row 1) by lia. cbn zeta.
+  destruct phase_hist as (p1 & E1 & L1 & H1). fold nnz. rewrite E1. cbn [bind].
+  destruct (phase_cumsum p1 L1 H1) as (p2 & cs & E2 & L2 & H2). rewrite E2. cbn [bind].
+  rewrite (setN_ok p2 row) by lia. cbn [bind].
+  set (p3 := updn (N.to_nat row) p2 nnz).
+  assert (L3 : lenN p3 = row + 1) by (unfold p3; rewrite lenN_updn by lia; assumption).
+  assert (H3 : forall r, r <= row -> nthN p3 r 0 = B r).
+  { intros r Hr. unfold p3. rewrite nthN_updn by lia.
+    destruct (N.eqb_spec r row) as [->|Hne]; [symmetry; apply B_row|apply H2; lia]. }
+  destruct (phase_scatter p3 L3 H3) as (p4 & j4 & x4 & E3 & L4 & Lj & Lx & H4 & R4).
+  rewrite E3. cbn [bind].
+  destruct (phase_shift p4 L4 H4) as (p5 & lst & E4 & L5 & H5). rewrite E4. cbn [bind].
+  set (m5 := Build_csr p5 j4 x4 row col).
+  assert (Hmono : forall i, i < row -> B i <= B (i + 1)).
+  { intros i Hi. apply belowL_mono. lia. }
+  assert (W5 : wf m5).
+  { unfold wf, pN, m5. cbn [cp cj cx crow]. split; [assumption|]. split; [rewrite H5 by lia; apply B_0|].
+    split; [|split].
+    - intros i Hi. rewrite !H5 by lia. apply Hmono; assumption.
+    - rewrite H5 by lia. rewrite B_row. symmetry; assumption.
+    - lia. }
+  assert (R5 : forall i, i < row -> row_of m5 i = rowl T i).
+  { intros i Hi. rewrite row_of_seg. unfold pN, m5. cbn [cp cj cx]. rewrite !H5 by lia. apply R4; assumption. }
+  destruct (sort_indices_spec Ops m5 W5) as (j6 & x6 & E5 & S5); [cbn [cj m5]; lia|cbn [crow m5]; lia|].
+  cbn [cp cj cx crow ccol m5] in E5, S5. cbn zeta in S5. rewrite E5. cbn [bind].
+  set (m6 := Build_csr p5 j6 x6 row col) in *.
+  destruct S5 as (Lj6 & Lx6 & W6 & R6).
+  destruct (sum_duplicates_spec Ops m6 W6) as (p7 & j7 & x7 & E6 & S6).
+  { cbn [cj m6]. lia. }
+  { cbn [crow m6]. lia. }
+  { intros i Hi. apply R6. exact Hi. }
+  cbn [cp cj cx crow ccol m6] in E6, S6. cbn zeta in S6. rewrite E6. cbn [bind].
+  set (m7 := Build_csr p7 j7 x7 row col) in *.
+  destruct S6 as (C7 & R7 & V7).
+  exists m7. split; [reflexivity|]. split; [reflexivity|]. split; [reflexivity|]. split.
+  - split; [exact C7|]. split.
+    + apply rows_cols_ok; [apply C7|]. cbn [crow ccol m7]. intros i e Hi He.
+      rewrite R7 in He by assumption. apply group_in in He as (e1 & He1 & ->).
+      destruct (R6 i Hi) as (P6 & _).
+      apply (Permutation_in _ P6) in He1.
+      rewrite R5 in He1 by assumption. unfold rowl in He1.
+      apply in_map_iff in He1 as (t & <- & Ht). apply filter_In in Ht as (Ht & _).
+      apply T_cols in Ht. rewrite Forall_forall in Hjs. apply Hjs. assumption.
+    + unfold dims_ok. cbn [crow ccol m7]. repeat split; assumption.
+  - intros i c Hi Hc. rewrite V7 by assumption. rewrite lsum_esum by assumption.
+    destruct (R6 i Hi) as (P6 & _).
+    rewrite (esum_perm HM _ _ (colvals_perm c _ _ P6)).
+    rewrite R5 by assumption. rewrite coo_values_rowl. reflexivity.
+Qed.
+
 End Loops.
 
+Theorem from_coo_spec (row col : N) (is js : list N) (xs : list E) :
+  comm_monoid Ops ->
+  row < 2 ^ 31 -> col < 2 ^ 31 -> row * col < 2 ^ 31 -> lenN xs < 2 ^ 31 ->
+  length is = length xs -> length js = length xs ->
+  Forall (fun i => i < row) is -> Forall (fun c => c < col) js ->
+  exists m, from_coo Ops row col is js xs = Ok m /\ crow m = row /\ ccol m = col /\ Inv m /\
+    forall i c, i < row -> c < col -> entry m i c = esum (coo_values is js xs i c).
+Proof. intros. apply from_coo_core; assumption. Qed.
+
 End FromCoo3.
+
+Print Assumptions from_coo_spec.
